@@ -70,15 +70,35 @@ void GammaDiscreteDistribution::fireParameterChanged(const ParameterList& parame
   AbstractDiscreteDistribution::fireParameterChanged(parameters);
   alpha_ = getParameterValue("alpha");
   beta_ = getParameterValue("beta");
+  bool offsetRefused = false;
+  double refusedOffset = 0;
   if (hasParameter("offset") && offset_ != getParameterValue("offset"))
   {
-    offset_ = getParameterValue("offset");
-    // the support starts at the offset (as in the constructor)
-    intMinMax_->setLowerBound(offset_, true);
+    double newOffset = getParameterValue("offset");
+    if (!(newOffset < intMinMax_->getUpperBound()))
+    {
+      // No part of the support ]offset, +inf[ would be left inside the domain (restrictToConstraint
+      // may have lowered its upper end): the offset is refused and keeps its value.
+      offsetRefused = true;
+      refusedOffset = newOffset;
+      getParameter_("offset").setValue(offset_);
+    }
+    else
+    {
+      // The support starts at the offset (as in the constructor).  A lower end that comes from
+      // restrictToConstraint stays in force as long as the support starts below it.
+      bool lowerIsSupportEnd = intMinMax_->strictLowerBound() && intMinMax_->getLowerBound() == offset_;
+      if (lowerIsSupportEnd || newOffset >= intMinMax_->getLowerBound())
+        intMinMax_->setLowerBound(newOffset, true);
+      offset_ = newOffset;
+    }
   }
   ga1_ = exp(RandomTools::lnGamma(alpha_ + 1) - RandomTools::lnGamma(alpha_));
 
   discretize();
+
+  if (offsetRefused)
+    throw ConstraintException("GammaDiscreteDistribution::fireParameterChanged: the offset leaves no support inside the domain", &getParameter_("offset"), refusedOffset);
 }
 
 /******************************************************************************/
